@@ -194,6 +194,11 @@ pub fn catch<T>(f: impl FnOnce() -> T) -> Result<T, String> {
     })
 }
 
+fn panic_is_in_repo(msg: &str) -> bool {
+    let repo = std::env::var("VERIF_REPO").unwrap_or_else(|_| "/repo".into());
+    msg.contains(&format!(" at {repo}/src/"))
+}
+
 pub struct RunResult {
     pub outcome: Result<RunOut, Violation>,
     pub tape: Vec<u32>,
@@ -224,8 +229,14 @@ pub fn exec(
         sample: None,
         known: KNOWN.get_or_init(|| Arc::new(load_known())).clone(),
     };
-    let outcome = catch(|| (engine.run)(&mut ctx))
-        .map_err(|p| format!("harness panic in engine {} run {}: {}", engine.name, run_index, p))?;
+    let outcome = match catch(|| (engine.run)(&mut ctx)) {
+        Ok(o) => o,
+        // A panic raised inside the code under test (its location is a file of the repository)
+        // in a place where the engine does not isolate calls - scenario set-up, mostly - is that
+        // code's failure in a scenario of the property's domain, not a harness fault.
+        Err(p) if panic_is_in_repo(&p) => Err(Violation { prop: focus, oracle: "panic-in-code-under-test", msg: format!("engine {}: {p}", engine.name) }),
+        Err(p) => return Err(format!("harness panic in engine {} run {}: {}", engine.name, run_index, p)),
+    };
     Ok(RunResult {
         outcome,
         tape: std::mem::take(&mut ctx.tape.rec),
